@@ -1,12 +1,229 @@
 package sim
 
-// wsClient is the simulator's RFC 6455 client side (built with the C18 check).
-type wsClient struct{}
+import (
+	"bytes"
+	"encoding/binary"
+	"errors"
+	"fmt"
+	"time"
+)
 
-func newWSClient(w *World) *wsClient { return &wsClient{} }
+// wsClient is the simulator's RFC 6455 client side. It turns the scripted client's MQTT byte stream
+// into masked binary messages with a seeded segmentation, and the broker's frames back into bytes.
+type wsClient struct {
+	mode      int  // segmentation mode (Plan.Net / connect op)
+	upgraded  bool // the 101 response was seen
+	hsBuf     []byte
+	inBuf     []byte // frame reassembly, broker -> client
+	pending   []byte // MQTT bytes held back to be packed with the next packet
+	flushEv   bool
+	textMode  bool // send the stream as text messages (must be rejected)
+	Frames    int
+	NonBinary int
+	Msgs      []int // sizes of the binary messages sent
+	waiting   []func() // sends deferred until the upgrade is complete
+}
 
-func (ws *wsClient) handshake(w *World, c *cconn) {}
+func newWSClient(w *World) *wsClient { return &wsClient{mode: w.netRng.IntN(6)} }
 
-func (ws *wsClient) frame(w *World, b []byte) []byte { return b }
+const wsRequest = "GET / HTTP/1.1\r\nHost: sim\r\nUpgrade: websocket\r\nConnection: Upgrade\r\n" +
+	"Sec-WebSocket-Key: dGhlIHNhbXBsZSBub25jZQ==\r\nSec-WebSocket-Version: 13\r\nSec-WebSocket-Protocol: mqtt\r\n\r\n"
 
-func (ws *wsClient) unframe(w *World, c *cconn, b []byte, step int) ([]byte, error) { return b, nil }
+func (ws *wsClient) handshake(w *World, c *cconn) {
+	c.enqueueRaw(w, []byte(wsRequest))
+}
+
+func wsFrame(op byte, fin bool, payload []byte, key [4]byte) []byte {
+	var b []byte
+	h := op
+	if fin {
+		h |= 0x80
+	}
+	b = append(b, h)
+	n := len(payload)
+	switch {
+	case n < 126:
+		b = append(b, 0x80|byte(n))
+	case n < 65536:
+		b = append(b, 0x80|126, byte(n>>8), byte(n))
+	default:
+		b = append(b, 0x80|127)
+		var l [8]byte
+		binary.BigEndian.PutUint64(l[:], uint64(n))
+		b = append(b, l[:]...)
+	}
+	b = append(b, key[:]...)
+	for i, x := range payload {
+		b = append(b, x^key[i%4])
+	}
+	return b
+}
+
+// frame turns MQTT bytes into one or more WebSocket messages.
+func (ws *wsClient) frame(w *World, b []byte) []byte {
+	stream := append(ws.pending, b...)
+	ws.pending = nil
+	rng := w.netRng
+	var out []byte
+	key := func() [4]byte { return [4]byte{byte(rng.IntN(256)), byte(rng.IntN(256)), byte(rng.IntN(256)), byte(rng.IntN(256))} }
+	emit := func(p []byte) {
+		if len(p) == 0 {
+			return
+		}
+		op := byte(2)
+		if ws.textMode {
+			op = 1
+		}
+		ws.Msgs = append(ws.Msgs, len(p))
+		// sometimes as a fragmented message (continuation frames), sometimes with a ping in between
+		if len(p) > 1 && rng.IntN(5) == 0 {
+			cut := 1 + rng.IntN(len(p)-1)
+			out = append(out, wsFrame(op, false, p[:cut], key())...)
+			if rng.IntN(3) == 0 {
+				out = append(out, wsFrame(9, true, []byte("hi"), key())...)
+				w.Faults["ws.ping"]++
+			}
+			out = append(out, wsFrame(0, true, p[cut:], key())...)
+			w.Faults["ws.fragmented"]++
+			return
+		}
+		out = append(out, wsFrame(op, true, p, key())...)
+	}
+	switch ws.mode {
+	case 0: // one message per call (aligned with the packets)
+		emit(stream)
+	case 1: // random split
+		for len(stream) > 0 {
+			n := 1 + rng.IntN(len(stream))
+			emit(stream[:n])
+			stream = stream[n:]
+			w.Faults["ws.split"]++
+		}
+	case 2: // one-byte messages (small streams), else random split
+		for len(stream) > 0 {
+			n := 1
+			if len(stream) > 40 {
+				n = 1 + rng.IntN(len(stream))
+			}
+			emit(stream[:n])
+			stream = stream[n:]
+			w.Faults["ws.split"]++
+		}
+	case 3: // sizes around the broker's read buffer (1024) and its multiples
+		for len(stream) > 0 {
+			n := []int{1023, 1024, 1025, 2047, 2048, 2049, 1, 511}[rng.IntN(8)]
+			if n > len(stream) {
+				n = len(stream)
+			}
+			emit(stream[:n])
+			stream = stream[n:]
+			w.Faults["ws.split"]++
+		}
+	case 4: // hold back the tail: it travels with the next packet (boundaries not aligned)
+		if len(stream) > 1 && rng.IntN(2) == 0 {
+			keep := 1 + rng.IntN(min(len(stream)-1, 8))
+			ws.pending = append([]byte{}, stream[len(stream)-keep:]...)
+			stream = stream[:len(stream)-keep]
+			w.Faults["ws.unaligned"]++
+		}
+		emit(stream)
+	case 5: // leave exactly one byte for the next message
+		if len(stream) > 1 {
+			emit(stream[:len(stream)-1])
+			emit(stream[len(stream)-1:])
+			w.Faults["ws.split"]++
+		} else {
+			emit(stream)
+		}
+	}
+	return out
+}
+
+// flushPending returns frames for held-back bytes (called by a timer so that nothing is held forever).
+func (ws *wsClient) flushPending(w *World) []byte {
+	if len(ws.pending) == 0 {
+		return nil
+	}
+	p := ws.pending
+	ws.pending = nil
+	key := [4]byte{1, 2, 3, 4}
+	ws.Msgs = append(ws.Msgs, len(p))
+	return wsFrame(2, true, p, key)
+}
+
+var errWS = errors.New("websocket protocol error")
+
+// unframe consumes bytes written by the broker and returns the payload bytes of complete binary messages.
+func (ws *wsClient) unframe(w *World, c *cconn, b []byte, step int) ([]byte, error) {
+	if !ws.upgraded {
+		ws.hsBuf = append(ws.hsBuf, b...)
+		i := bytes.Index(ws.hsBuf, []byte("\r\n\r\n"))
+		if i < 0 {
+			return nil, nil
+		}
+		head := string(ws.hsBuf[:i])
+		rest := ws.hsBuf[i+4:]
+		ws.hsBuf = nil
+		if len(head) < 12 || head[9:12] != "101" {
+			return nil, fmt.Errorf("websocket upgrade refused: %q", head)
+		}
+		ws.upgraded = true
+		b = rest
+	}
+	ws.inBuf = append(ws.inBuf, b...)
+	var out []byte
+	for {
+		if len(ws.inBuf) < 2 {
+			return out, nil
+		}
+		op := ws.inBuf[0] & 0x0f
+		fin := ws.inBuf[0]&0x80 != 0
+		masked := ws.inBuf[1]&0x80 != 0
+		n := int(ws.inBuf[1] & 0x7f)
+		pos := 2
+		if n == 126 {
+			if len(ws.inBuf) < 4 {
+				return out, nil
+			}
+			n = int(ws.inBuf[2])<<8 | int(ws.inBuf[3])
+			pos = 4
+		} else if n == 127 {
+			if len(ws.inBuf) < 10 {
+				return out, nil
+			}
+			n = int(binary.BigEndian.Uint64(ws.inBuf[2:10]))
+			pos = 10
+		}
+		if masked {
+			return out, fmt.Errorf("%w: server frame is masked", errWS)
+		}
+		if len(ws.inBuf) < pos+n {
+			return out, nil
+		}
+		payload := ws.inBuf[pos : pos+n]
+		ws.inBuf = ws.inBuf[pos+n:]
+		ws.Frames++
+		switch op {
+		case 2, 0:
+			out = append(out, payload...)
+			_ = fin
+		case 1:
+			ws.NonBinary++
+			w.Violate(w.Plan.Prop, "binary_out", "the broker sent a WebSocket text frame (%d bytes)", n)
+		case 8, 9, 10:
+			// close / ping / pong: control frames carry no MQTT bytes
+		default:
+			ws.NonBinary++
+		}
+	}
+}
+
+// enqueueRaw queues raw bytes (no framing) for delivery.
+func (c *cconn) enqueueRaw(w *World, b []byte) {
+	c.sendSeq++
+	at := time.Now().Add(w.latency())
+	if n := len(c.sendq); n > 0 && at.Before(c.sendq[n-1].at) {
+		at = c.sendq[n-1].at
+	}
+	c.sendq = append(c.sendq, &outPkt{at: at, seq: c.sendSeq, b: b})
+}
